@@ -216,6 +216,7 @@ type rcase struct {
 	Content *inputSpec      `json:"content,omitempty"` // the original content (prefix checks)
 	Tag     json.RawMessage `json:"tag,omitempty"`
 	MaxOut  int             `json:"maxout,omitempty"`
+	Plan    *linkedPlan     `json:"plan,omitempty"` // the source is a dependent-block frame built from this plan
 }
 
 const (
@@ -335,6 +336,13 @@ func frameRead(args []string) error {
 		if err != nil {
 			return err
 		}
+		var planContent []byte
+		var rblocks [][2]int
+		if c.Plan != nil {
+			src, planContent = buildLinked(*c.Plan)
+			src = applyOps(src, c.Ops)
+			lz4.VerifOnBlock = func(b, dict int) { rblocks = append(rblocks, [2]int{b, dict}) }
+		}
 		limit := c.MaxOut
 		if limit == 0 {
 			limit = 1 << 28
@@ -344,6 +352,7 @@ func frameRead(args []string) error {
 			m0 = memBefore()
 		}
 		o := runReader(src, c.Cfg, *wd, limit)
+		lz4.VerifOnBlock = nil
 		e := rec{"ev": "read", "case": c.ID, "outcome": o.Outcome, "err": o.Err, "errtext": o.ErrText, "deliveredLen": len(o.Delivered),
 			"deliveredSha": shaID(o.Delivered), "consumed": o.Consumed, "leaked": o.Leaked, "size": u64limbs(uint64(o.Size)),
 			"calls": o.Calls, "srcLen": len(src), "cfg": c.Cfg, "extraErr": o.ExtraErr, "extraCons": o.ExtraCons, "srcCalls": o.SrcCalls}
@@ -376,6 +385,18 @@ func frameRead(args []string) error {
 			rs["deliveredIsPrefix"] = isPrefix(o.Delivered, p.Content)
 			rs["sameContent"] = bytes.Equal(o.Delivered, p.Content)
 			e["ref"] = rs
+		}
+		if c.Plan != nil {
+			if rblocks == nil {
+				rblocks = [][2]int{}
+			}
+			e["rblocks"] = rblocks
+			e["prefixOfContent"] = isPrefix(o.Delivered, planContent)
+			e["sameAsContent"] = bytes.Equal(o.Delivered, planContent)
+			e["contentLen"] = len(planContent)
+			if small && len(planContent) <= 2*smallFrame {
+				e["content"] = ints(planContent)
+			}
 		}
 		if c.Content != nil {
 			key := fmt.Sprint(*c.Content)
